@@ -4,6 +4,7 @@ worktree of /repo, never in /repo itself; FPARSER_SRC points the checks at it).
 usage: run_seeds.py [--tier quick] [--checks C01,C02] [seed dirs...]   -> /verif/seeded/RESULTS.json"""
 import os, sys, json, subprocess, time, argparse
 
+ROOT = os.environ.get("VERIF_ROOT", "/verif")      # run the checks of a snapshot of /verif with VERIF_ROOT=<copy>
 SEEDED = "/verif/seeded"
 
 
@@ -22,7 +23,7 @@ def main():
     ap.add_argument("seeds", nargs="*")
     a = ap.parse_args()
     seeds = a.seeds or sorted(d for d in os.listdir(SEEDED) if os.path.isdir(os.path.join(SEEDED, d)))
-    respath = os.path.join(SEEDED, "RESULTS.json")
+    respath = os.environ.get("SEED_RESULTS", os.path.join(SEEDED, "RESULTS.json"))
     results = json.load(open(respath)) if os.path.exists(respath) else {}
     for s in seeds:
         d = os.path.join(SEEDED, s)
@@ -40,7 +41,7 @@ def main():
                 continue
             for c in checks:
                 t0 = time.time()
-                rc, out = sh("./check %s --tier %s" % (c, a.tier), cwd="/verif",
+                rc, out = sh("./check %s --tier %s" % (c, a.tier), cwd=ROOT,
                              env={"FPARSER_SRC": wt + "/src", "VERIF_WORK_SUFFIX": s})
                 viol = [l for l in out.splitlines() if l.startswith("VIOLATION")]
                 results.setdefault(s, {})[c + ":" + a.tier] = {"exit": rc, "violations": len(viol), "wall_s": round(time.time() - t0, 1),
@@ -48,7 +49,7 @@ def main():
                 print(s, c, "exit", rc, "violations", len(viol), flush=True)
         finally:
             sh("git -C /repo worktree remove --force %s" % wt)
-            sh("rm -rf /verif/.work/mut_%s" % s)
+            sh("rm -rf %s/.work/mut_%s" % (ROOT, s))
         json.dump(results, open(respath, "w"), indent=1)
     # restore evidence written by these runs? evidence files are rewritten by the next real run
 
